@@ -508,6 +508,190 @@ func TestVerifC28Stress(t *testing.T) {
 	wg.Wait()
 }
 
+// TestVerifC28Race makes the operations race on ONE key, round after round, with the eviction listener counting
+// the notifications per stored entry (class, key, value):
+//
+//	class A (default lifetime): 3 Deletes + a replacing Add of the same key;
+//	class B (lifetime 1ns, everything is expired at once): 2 Deletes + 2 sweeps of the same key;
+//
+// while two goroutines keep the lock busy with Finds of an unrelated key. It reports every entry that was notified
+// more than once and every key for which more Deletes returned true than entries were stored under it.
+func TestVerifC28Race(t *testing.T) {
+	rounds, _ := strconv.Atoi(os.Getenv("VERIF_ROUNDS"))
+	if rounds <= 0 {
+		rounds = 2000
+	}
+
+	const clsA, clsB = 7001, 7002
+
+	type entry struct{ id, key, val int }
+
+	var (
+		mu     sync.Mutex
+		counts = map[entry]int{}
+	)
+
+	c28NoSweeper(clsA, 2)
+	PurgeLocal(clsA)
+	PurgeLocal(clsB)
+
+	saved := evictHandler()
+
+	SetOnEvict(func(id int, key any, value any) {
+		k, _ := key.(int)
+		v, _ := value.(int)
+
+		mu.Lock()
+		counts[entry{id, k, v}]++
+		mu.Unlock()
+	})
+
+	defer func() {
+		SetOnEvict(saved)
+		PurgeLocal(clsA)
+		PurgeLocal(clsB)
+	}()
+
+	_ = SetExpiration(clsB, "1ns")
+
+	Add(clsA, -1, 0)
+
+	stop := make(chan struct{})
+
+	var traffic sync.WaitGroup
+
+	for g := 0; g < 2; g++ {
+		traffic.Add(1)
+
+		go func() {
+			defer traffic.Done()
+
+			for {
+				select {
+				case <-stop:
+					return
+				default:
+					Find(clsA, -1)
+				}
+			}
+		}()
+	}
+
+	type finding struct {
+		Kind   string `json:"kind"`
+		Class  int    `json:"class"`
+		Key    int    `json:"key"`
+		Detail string `json:"detail"`
+	}
+
+	findings := []finding{}
+	deletesTrue := 0
+
+	for r := 0; r < rounds; r++ {
+		var (
+			wg     sync.WaitGroup
+			gate   = make(chan struct{})
+			okA    [3]bool
+			okB    [2]bool
+			stored = map[int]int{clsA: 1, clsB: 1}
+		)
+
+		Add(clsA, r, 2*r)
+		Add(clsB, r, 2*r)
+
+		run := func(f func()) {
+			wg.Add(1)
+
+			go func() {
+				defer wg.Done()
+
+				<-gate
+				f()
+			}()
+		}
+
+		for i := range okA {
+			run(func() { okA[i] = Delete(clsA, r) })
+		}
+
+		if r%2 == 0 {
+			stored[clsA] = 2
+
+			run(func() { Add(clsA, r, 2*r+1) })
+		}
+
+		for i := range okB {
+			run(func() { okB[i] = Delete(clsB, r) })
+		}
+
+		run(func() { sweepExpired(clsB) })
+		run(func() { sweepExpired(clsB) })
+
+		close(gate)
+		wg.Wait()
+
+		// leftovers of this round (e.g. the replacing Add that came last) are removed sequentially
+		Delete(clsA, r)
+		Delete(clsB, r)
+
+		trueA, trueB := 0, 0
+
+		for _, b := range okA {
+			if b {
+				trueA++
+			}
+		}
+
+		for _, b := range okB {
+			if b {
+				trueB++
+			}
+		}
+
+		deletesTrue += trueA + trueB
+
+		if len(findings) < 20 {
+			if trueA > stored[clsA] {
+				findings = append(findings, finding{"delete-true-twice", clsA, r,
+					fmt.Sprintf("%d concurrent Deletes returned true, %d entries were stored under the key", trueA, stored[clsA])})
+			}
+
+			if trueB > stored[clsB] {
+				findings = append(findings, finding{"delete-true-twice", clsB, r,
+					fmt.Sprintf("%d concurrent Deletes returned true, %d entry was stored under the key", trueB, stored[clsB])})
+			}
+		}
+	}
+
+	close(stop)
+	traffic.Wait()
+
+	mu.Lock()
+
+	notified, twice := 0, 0
+
+	for e, n := range counts {
+		notified += n
+
+		if n > 1 {
+			twice++
+
+			if len(findings) < 40 {
+				findings = append(findings, finding{"evicted-twice", e.id, e.key,
+					fmt.Sprintf("entry (class %d, key %d, value %d) was reported to the eviction listener %d times", e.id, e.key, e.val, n)})
+			}
+		}
+	}
+
+	mu.Unlock()
+
+	b, _ := json.Marshal(map[string]any{"rounds": rounds, "findings": findings, "entries_notified_twice": twice,
+		"notifications": notified, "deletes_true": deletesTrue})
+	if err := os.WriteFile(os.Getenv("VERIF_OUT"), b, 0o644); err != nil {
+		t.Fatal(err)
+	}
+}
+
 // ---------------------------------------------------------------------------------------------
 // lock discipline: every mention of the shared maps must be inside a cacheLock critical section
 
@@ -757,6 +941,27 @@ func TestVerifC28Locks(t *testing.T) {
 				scan.file = filepath.Base(path)
 				// helpers documented as "called with the lock held" start locked; their call sites are checked
 				scan.block(v.Body.List, scan.needLock[v.Name.Name])
+
+				// an operation's decision and its state change must lie in ONE critical section: a function that
+				// acquires cacheLock more than once can act in the second section on what it read in the first
+				// (which another goroutine may have changed in between)
+				acquired := 0
+
+				ast.Inspect(v.Body, func(x ast.Node) bool {
+					if es, ok := x.(*ast.ExprStmt); ok {
+						if n := c28LockCall(es.X); n == "Lock" || n == "RLock" {
+							acquired++
+
+							if acquired == 2 {
+								scan.acc = append(scan.acc, c28Access{Func: v.Name.Name,
+									Ident: "second critical section (decision and state change are not atomic)",
+									File:  filepath.Base(path), Line: fset.Position(es.Pos()).Line, Locked: false})
+							}
+						}
+					}
+
+					return true
+				})
 			}
 		}
 	}
